@@ -48,3 +48,12 @@ func DebugClassify(op string) {
 	}
 	fmt.Println(Print(prog, ao))
 }
+
+// DebugSource evaluates raw source text with the real interpreter (both modes) and with python3.
+func DebugSource(src string) {
+	scratch, _ := os.MkdirTemp("", "c16dbg")
+	defer os.RemoveAll(scratch)
+	h := &harness{asp: NewAspRunner(scratch), py: NewPyRunner(scratch), pyMem: map[string]string{}}
+	defer h.py.Close()
+	fmt.Printf("asp b: %s\nasp d: %s\npy:    %s\n", h.runAsp("b", src), h.runAsp("d", src), h.runPy(src))
+}
